@@ -117,10 +117,9 @@ def compare(a, b):
         if only_b:
             return ("missing-diagnostic", "only in second: %s" % only_b[:3], sorted({k[-1] or "nocode" for k in only_b}))
         if adva != advb:
-            if sorted(set(adva)) == sorted(set(advb)):
-                # same once-per-run notes, replayed a different number of times / at other places
-                return ("advisory-note-placement", "%s vs %s" % (adva, advb), [])
-            return ("advisory-note-set", "%s vs %s" % (adva, advb), [])
+            # once-per-run notes replayed a different number of times / at other places / not at all (a fresh module's
+            # cached error lines carry them or not depending on where an EARLIER run attached them)
+            return ("advisory-note-placement", "%s vs %s" % (adva, advb), [])
         return ("within-file-order", "per-file order differs", [])
     # equal in normal form: cosmetic differences?
     seq = lambda r: [tuple(x) for x in r["diags"] if not diag.is_advisory(x)]
